@@ -1,13 +1,17 @@
 use crate::{Prop, Tier};
 
+pub mod c04;
 pub mod c06;
+pub mod c14;
 pub mod c15;
 pub mod c16;
 pub mod c17;
 
 pub fn get(id: &str, tier: Tier, seed: u64) -> Option<Prop> {
     Some(match id {
+        "C04" => c04::prop(tier, seed),
         "C06" => c06::prop(tier, seed),
+        "C14" => c14::prop(tier, seed),
         "C15" => c15::prop(tier, seed),
         "C16" => c16::prop(tier, seed),
         "C17" => c17::prop(tier, seed),
